@@ -81,6 +81,7 @@ class TupV(Val):
     is_list: bool = False
     names: tuple = ()  # field names of a typing.NamedTuple / collections.namedtuple instance
     rowview: bool = False  # the generic row of a 2-D array whose rows all have this form (np.tile(v, (n, 1)) ...)
+    arr: bool = False  # an ndarray with these elements (result of a numpy function): `+` is element-wise, not concatenation
 
 
 @dataclass
